@@ -158,7 +158,16 @@ impl Property for C01 {
         match agree(&exp, &out) {
             Ok(class) => j.classes.push(format!("outcome:{}", class)),
             Err(why) => {
-                j.verdict = Verdict::Violation(format!("{}\nprogram:\n{}", why, src));
+                // the checker (not the evaluator) reported an open row type for a record value:
+                // reading the value by that type is meaningless (KF-C02-01, listed here as KF-C01-04)
+                let mut fs = feats.clone();
+                if open_row_result_symptom(&out) {
+                    fs.push("open_row_in_result_record_type".into());
+                }
+                j.verdict = match kf.matches("C01", "not_equal", &why, &fs) {
+                    Some(id) => Verdict::Known(id),
+                    None => Verdict::Violation(format!("{}\nprogram:\n{}", why, src)),
+                };
                 return j;
             }
         }
